@@ -1,5 +1,6 @@
 import GoUefi.Gen
 import GoUefi.Model.Boot
+import GoUefi.Lemmas.Boot
 import GoUefi.Lemmas.GenBoot
 import GoUefi.Lemmas.GenNullStr
 import GoUefi.Lemmas.GenCodec
@@ -9,76 +10,106 @@ import GoUefi.Lemmas.GenCodec
 `efivarfs.bootorder.Unmarshal` (efivarfs/efivarfs.go) and `device.ParseEFILoadOption` (efi/device/device.go)
 translated by `tools/go2lean`.
 
-`bootorder.Unmarshal` is `for i := 0; b.Len() != 0; i += 2 { sec := make([]byte, 2); b.Read(sec); val :=
+`bootorder.Unmarshal` is `for i := 0; b.Len() >= 2; i += 2 { sec := make([]byte, 2); b.Read(sec); val :=
 binary.BigEndian.Uint16([]byte{sec[1], sec[0]}); *bo = append(*bo, fmt.Sprintf("Boot%04X", val)) }`: a
 three-clause loop that is not evidently bounded (fuel), `(*bytes.Buffer).Read` into a fresh two-byte slice
 (prelude `bufRead`; the two index expressions are in range because every assignment to `sec` has length 2),
-`%04X` (prelude `fmtHex true 4`).  What happens to a trailing single byte: `Read` delivers it into `sec[0]`,
-`sec[1]` keeps the zero of `make`, no error is looked at — it becomes a last entry `Boot00XX` (checked against the
-real code: `ab` ↦ `["Boot00AB"]`).
+`%04X` (prelude `fmtHex true 4`).  What happens to a trailing single byte (F35 repair, commit b2ed0f9): the loop
+condition asks for two bytes, so it is not read — it adds no name and stays in the buffer (checked against the real
+code: `ab` ↦ `[]`, `17 00 61 00 ab` ↦ `["Boot0017", "Boot0061"]`).  Before the repair the condition was
+`b.Len() != 0` and `Read` delivered the byte into `sec[0]` next to the zero of `make`: a made-up last entry `Boot00AB`.
 -/
 namespace GoUefi.C18
 open GoUefi GoUefi.Gen
 
 /-- **`bootorder.Unmarshal`, any sufficient fuel**: the receiver gains exactly `GenBoot.bootNames bs` — one name
-    `"Boot" ++ %04X` per complete little-endian pair, in order, plus one for a trailing single byte read as a low
-    byte —, the buffer is empty afterwards and the error is `nil` (in particular never the out-of-fuel value) -/
-theorem C18g_unmarshal (bo : efivarfs.bootorder) (bs : List UInt8) (fuel : Nat) (h : (bs.length + 1) / 2 + 1 ≤ fuel) :
-    efivarfs.bootorder.Unmarshal fuel bo bs = (bo ++ GenBoot.bootNames bs, [], none) := by
+    `"Boot" ++ %04X` per complete little-endian pair, in order, and no other —, the buffer is left with the bytes
+    behind the `⌊len/2⌋` complete pairs (nothing for an even length, the trailing byte for an odd one:
+    `C18g_unmarshal_rest`) and the error is `nil` (in particular never the out-of-fuel value) -/
+theorem C18g_unmarshal (bo : efivarfs.bootorder) (bs : List UInt8) (fuel : Nat) (h : bs.length / 2 + 1 ≤ fuel) :
+    efivarfs.bootorder.Unmarshal fuel bo bs = (bo ++ GenBoot.bootNames bs, bs.drop (2 * (bs.length / 2)), none) := by
   obtain ⟨i', hi'⟩ := GenBoot.loop_eq bs fuel bo 0 h
   unfold efivarfs.bootorder.Unmarshal
   simp only []
   rw [hi']
+  rfl
+
+/-- what is left in the buffer: `len % 2` bytes — nothing when the length is even, and the last byte when it is odd -/
+theorem C18g_unmarshal_rest (bo : efivarfs.bootorder) (bs : List UInt8) (fuel : Nat) (h : bs.length / 2 + 1 ≤ fuel) :
+    (efivarfs.bootorder.Unmarshal fuel bo bs).2.1.length = bs.length % 2 ∧
+    (bs.length % 2 = 0 → (efivarfs.bootorder.Unmarshal fuel bo bs).2.1 = []) ∧
+    (bs.length % 2 = 1 → (efivarfs.bootorder.Unmarshal fuel bo bs).2.1 = bs.drop (bs.length - 1)) := by
+  rw [C18g_unmarshal bo bs fuel h]
+  refine ⟨GenBoot.rest_length bs, GenBoot.rest_even bs, fun ho => ?_⟩
+  have e : 2 * (bs.length / 2) = bs.length - 1 := by omega
+  simp only [e]
 
 /-- fuel is irrelevant once there is enough of it -/
 theorem C18g_unmarshal_fuel (bo : efivarfs.bootorder) (bs : List UInt8) (f1 f2 : Nat)
-    (h1 : (bs.length + 1) / 2 + 1 ≤ f1) (h2 : (bs.length + 1) / 2 + 1 ≤ f2) :
+    (h1 : bs.length / 2 + 1 ≤ f1) (h2 : bs.length / 2 + 1 ≤ f2) :
     efivarfs.bootorder.Unmarshal f1 bo bs = efivarfs.bootorder.Unmarshal f2 bo bs := by
   rw [C18g_unmarshal bo bs f1 h1, C18g_unmarshal bo bs f2 h2]
 
 /-- the returned error is always `nil` -/
 theorem C18g_unmarshal_no_error (bo : efivarfs.bootorder) (bs : List UInt8) (fuel : Nat)
-    (h : (bs.length + 1) / 2 + 1 ≤ fuel) : (efivarfs.bootorder.Unmarshal fuel bo bs).2.2 = none := by
+    (h : bs.length / 2 + 1 ≤ fuel) : (efivarfs.bootorder.Unmarshal fuel bo bs).2.2 = none := by
   rw [C18g_unmarshal bo bs fuel h]
 
 /-- **the model**: the names are those of `Impl.bootOrder` (Model/Boot.lean), i.e. `Spec.fwBootName` of every
-    entry — "Boot" followed by four upper-case hexadecimal digits (`hex4U`) -/
-theorem C18g_unmarshal_model (bs : List UInt8) (fuel : Nat) (h : (bs.length + 1) / 2 + 1 ≤ fuel) :
+    complete entry — "Boot" followed by four upper-case hexadecimal digits (`hex4U`) -/
+theorem C18g_unmarshal_model (bs : List UInt8) (fuel : Nat) (h : bs.length / 2 + 1 ≤ fuel) :
     (efivarfs.bootorder.Unmarshal fuel [] bs).1 = (Impl.bootOrder bs).map String.ofList := by
   rw [C18g_unmarshal [] bs fuel h, List.nil_append, GenBoot.bootNames_model]
+
+/-- **the specification, for every buffer content of any length** (with `C18_names_every`): the names are the
+    firmware names of the complete little-endian 16-bit entries `Spec.entriesLE bs`, in order -/
+theorem C18g_unmarshal_spec (bs : List UInt8) (fuel : Nat) (h : bs.length / 2 + 1 ≤ fuel) :
+    (efivarfs.bootorder.Unmarshal fuel [] bs).1 =
+      (Spec.entriesLE bs).map (fun n => String.ofList (Spec.fwBootName n)) := by
+  rw [C18g_unmarshal_model bs fuel h, bootOrder_entries, List.map_map]; rfl
 
 /-- `%04X` of a 16-bit value is the model's four upper-case digits, so a name is the firmware's -/
 theorem C18g_name (n : Nat) (h : n < 65536) :
     "Boot" ++ fmtHex true 4 n = String.ofList (Spec.fwBootName n) ∧ fmtHex true 4 n = String.ofList (hex4U n) :=
   ⟨GenFmt.boot_name n h, GenFmt.fmtHex_upper4 n h⟩
 
-/-- the number of names is `⌈len/2⌉` -/
-theorem C18g_unmarshal_length (bs : List UInt8) (fuel : Nat) (h : (bs.length + 1) / 2 + 1 ≤ fuel) :
-    (efivarfs.bootorder.Unmarshal fuel [] bs).1.length = (bs.length + 1) / 2 := by
+/-- the number of names is `⌊len/2⌋`: the number of complete entries -/
+theorem C18g_unmarshal_length (bs : List UInt8) (fuel : Nat) (h : bs.length / 2 + 1 ≤ fuel) :
+    (efivarfs.bootorder.Unmarshal fuel [] bs).1.length = bs.length / 2 := by
   rw [C18g_unmarshal [] bs fuel h, List.nil_append, GenBoot.bootNames_length]
 
 /-- **direct characterisation**: the `k`-th name is `"Boot" ++ %04X` of the `k`-th complete little-endian pair -/
-theorem C18g_unmarshal_entry (bs : List UInt8) (fuel : Nat) (h : (bs.length + 1) / 2 + 1 ≤ fuel) (k : Nat)
+theorem C18g_unmarshal_entry (bs : List UInt8) (fuel : Nat) (h : bs.length / 2 + 1 ≤ fuel) (k : Nat)
     (hk : 2 * k + 1 < bs.length) :
     (efivarfs.bootorder.Unmarshal fuel [] bs).1[k]? =
       some ("Boot" ++ fmtHex true 4 ((bs.getD (2 * k) 0).toNat + 256 * (bs.getD (2 * k + 1) 0).toNat)) := by
   rw [C18g_unmarshal [] bs fuel h, List.nil_append, GenBoot.bootNames_get bs k hk]
 
-/-- **a trailing single byte** `a` behind complete pairs `xs` is not an error and is not dropped: it yields one more
-    name, that of the number `a` (high byte zero) -/
-theorem C18g_unmarshal_trailing (xs : List UInt8) (a : UInt8) (fuel : Nat) (hx : xs.length % 2 = 0)
-    (h : (xs.length + 2) / 2 + 1 ≤ fuel) :
-    efivarfs.bootorder.Unmarshal fuel [] (xs ++ [a]) =
-      (GenBoot.bootNames xs ++ ["Boot" ++ fmtHex true 4 a.toNat], [], none) := by
-  rw [C18g_unmarshal [] (xs ++ [a]) fuel (by rw [List.length_append, List.length_singleton]; omega), List.nil_append,
-    GenBoot.bootNames_append_single xs a hx]
+/-- **a trailing single byte** `a` behind complete pairs `xs` is not an entry (F35 repair): it adds no name — the
+    receiver gains what it gains from `xs` alone — and it is not consumed: the buffer holds exactly `[a]` afterwards;
+    no error.  (Before the repair the result was `(bo ++ bootNames xs ++ ["Boot" ++ %04X a], [], nil)`.) -/
+theorem C18g_unmarshal_trailing (bo : efivarfs.bootorder) (xs : List UInt8) (a : UInt8) (fuel : Nat)
+    (hx : xs.length % 2 = 0) (h : xs.length / 2 + 1 ≤ fuel) :
+    efivarfs.bootorder.Unmarshal fuel bo (xs ++ [a]) = (bo ++ GenBoot.bootNames xs, [a], none) ∧
+    efivarfs.bootorder.Unmarshal fuel bo xs = (bo ++ GenBoot.bootNames xs, [], none) := by
+  have hf : (xs ++ [a]).length / 2 + 1 ≤ fuel := by rw [List.length_append, List.length_singleton]; omega
+  have h1 := C18g_unmarshal bo (xs ++ [a]) fuel hf
+  have h2 := C18g_unmarshal bo xs fuel h
+  have r1 : (xs ++ [a]).drop (2 * ((xs ++ [a]).length / 2)) = [a] := GenBoot.rest_append_single xs a hx
+  have r2 : xs.drop (2 * (xs.length / 2)) = [] := GenBoot.rest_even xs hx
+  rw [r1, GenBoot.bootNames_append_single xs a hx] at h1
+  rw [r2] at h2
+  exact ⟨h1, h2⟩
 
-example : efivarfs.bootorder.Unmarshal 4 ["x"] [1, 0, 0x1a, 0, 7] = (["x", "Boot0001", "Boot001A", "Boot0007"], [], none) := by
+example : efivarfs.bootorder.Unmarshal 3 ["x"] [1, 0, 0x1a, 0, 7] = (["x", "Boot0001", "Boot001A"], [7], none) := by
   decide +kernel
-example : efivarfs.bootorder.Unmarshal 2 [] [0xab] = (["Boot00AB"], [], none) := by decide +kernel
-example : (efivarfs.bootorder.Unmarshal 3 [] [0xff, 0xff, 0x34, 0x12]).1 = ["BootFFFF", "Boot1234"] := by decide +kernel
+example : efivarfs.bootorder.Unmarshal 3 [] [0x17, 0, 0x61, 0, 0xab] = (["Boot0017", "Boot0061"], [0xab], none) := by
+  decide +kernel
+example : efivarfs.bootorder.Unmarshal 1 [] [0xab] = ([], [0xab], none) := by decide +kernel
+example : efivarfs.bootorder.Unmarshal 3 [] [0xff, 0xff, 0x34, 0x12] = (["BootFFFF", "Boot1234"], [], none) := by decide +kernel
 -- with too little fuel the out-of-fuel value shows: the bound of the theorems is needed
 example : (efivarfs.bootorder.Unmarshal 1 [] [1, 0]).2.2 = some "go2lean:out-of-fuel" := by decide +kernel
+example : (efivarfs.bootorder.Unmarshal 2 [] [1, 0, 2, 0, 3]).2.2 = some "go2lean:out-of-fuel" := by decide +kernel
 
 /-! ### `device.ParseEFILoadOption` (translated; `util.ParseUtf16Var` is the field `util_ParseUtf16Var` of
 `device.Externals`) -/
@@ -127,9 +158,11 @@ example : device.ParseEFILoadOption 9 ⟨fun b => ([], "d", if b == [0x78, 0, 0,
 end GoUefi.C18
 
 #print axioms GoUefi.C18.C18g_unmarshal
+#print axioms GoUefi.C18.C18g_unmarshal_rest
 #print axioms GoUefi.C18.C18g_unmarshal_fuel
 #print axioms GoUefi.C18.C18g_unmarshal_no_error
 #print axioms GoUefi.C18.C18g_unmarshal_model
+#print axioms GoUefi.C18.C18g_unmarshal_spec
 #print axioms GoUefi.C18.C18g_name
 #print axioms GoUefi.C18.C18g_unmarshal_length
 #print axioms GoUefi.C18.C18g_unmarshal_entry
